@@ -361,6 +361,7 @@ def run_frame(at, dt, res, proc, models, log, promises, rets, apply_call,
     trace = log[before:]
     res.stats['frames'] += 1
     frame = {'killed': set(), 'restarted': set(), 'must': must}
+    self_killed, self_restarted = set(), set()
     stepped = {}
     current = None              # coroutine whose step is in progress
 
@@ -422,7 +423,31 @@ def run_frame(at, dt, res, proc, models, log, promises, rets, apply_call,
                 must.discard(target)
                 if target == who:
                     flags.add('self-kill')
+                    self_killed.add(who)
+            if name == 'start' and outcome == 'ok' and target == who \
+                    and who in self_killed:
+                self_restarted.add(who)
     end_step()
+    # a coroutine that killed AND restarted itself inside one step: what the
+    # value it then yields means is not stated (don't-care) - follow the
+    # processor for its ACTIVE/PAUSED state
+    for k in self_restarted:
+        m = models[k]
+        if m.st not in ('active', 'paused'):
+            continue
+        try:
+            seen = proc.state(gens[k])
+        except Exception:
+            continue
+        res.stats['dontcare_self_restart_yield'] += 1
+        if seen == enum.ACTIVE and m.st == 'paused':
+            m.st, m.acc, m.n = 'active', None, None
+        elif seen == enum.PAUSED and m.st == 'active':
+            idx = stepped.get(k)
+            y = m.script[idx]['y'] if idx is not None and idx < len(
+                m.script) else None
+            if y is not None and y > 0:
+                m.st, m.n, m.acc = 'paused', Fraction(y), Fraction(0)
     # restarted finished generators: exhausted, dropped without running code
     for k, m in enumerate(models):
         if m.st == 'active' and m.exhausted and k not in stepped:
